@@ -1,5 +1,6 @@
+from xeng import progs, progs2, progs3
 from . import _common
 
 
 def run(out):
-    _common.run(out, 'C10', s_props=['C10'])
+    _common.run(out, 'C10', x=[dict(fn=progs3.c10_corpus, name='c10', unimock=True), dict(fn=progs3.c10_corpus, name='c10t', unimock=True, tests=True)], s_props=['C10'])
